@@ -267,3 +267,15 @@ def cases(hy, cond):
         if B.z3_prove(list(hy), tm.not_(c))[0] != "proved":
             out.append((list(hy) + [c], v))
     return out
+
+
+def stop_on_error_msg(c):
+    """error_msg(text, STOP) does not return (it throws PhreeqcStop): the path ends there with status 'throw'"""
+    def error_stop(ex_, st, n, name, recv, args):
+        st.events.append(SX.Event(name, recv, args, tm.num(0, "I"), n))
+        if len(args) >= 2 and (args[1] is tm.TRUE or (tm.isnum(args[1]) and args[1].args[0] != 0)):
+            st.status = "throw"
+        return [(st, tm.num(0, "I"))]
+    c.handlers["Phreeqc::error_msg"] = error_stop
+    c.handlers["error_msg"] = error_stop
+    return c
